@@ -843,7 +843,29 @@ func c10FirstAttempt(c *Check) {
 						}
 						return (be.Op == token.EQL) == !inMem, true
 					})
+					// a site that cannot be reached in this world says nothing about it (`if slot.Meta != nil { tryDelivery(slot.Meta, …); return }`)
+					if _, reach := lr.F.Reach(Query{From: lr.Entry(), Inclusive: true, Target: func(q Pt) bool { return q == pt }, AvoidEdge: world}); !reach {
+						continue
+					}
 					for ai, a := range call.Args {
+						// the slot's part handed over directly
+						da := ast.Unparen(a)
+						if st, isStar := da.(*ast.StarExpr); isStar {
+							da = ast.Unparen(st.X)
+						}
+						if sel, isSel := da.(*ast.SelectorExpr); isSel && fieldOf(info, sel) != nil {
+							want := [](func(types.Type) bool){metaT, hdrT, bufT}[ai]
+							nt := namedOf(info.TypeOf(sel.X))
+							if inMem && want(fieldOf(info, sel).Type()) && nt != nil && objName(nt.Obj()) == "queueSlot" {
+								continue
+							}
+							if inMem {
+								msg = "with the message in the slot, argument " + itoa(ai+1) + " of tryDelivery is " + exprStr(a) + ", not the slot's part"
+							} else {
+								msg = "for a slot read from disk, argument " + itoa(ai+1) + " of tryDelivery is " + exprStr(a) + ", not a result of openMessage"
+							}
+							continue
+						}
 						o := objOf(info, a)
 						if o == nil {
 							msg = "tryDelivery is not handed plain variables"
